@@ -185,8 +185,7 @@ def run(ctx):
     # dry branch reports success like a wet kill
     tkc = ctx.fn1("Oomd::BaseKillPlugin::tryToKillCgroup")
     fl = flow(tkc)
-    dry_rets = [r for r in returns(tkc) if has_fact(fl.guards(r), True, "dry") and
-                any(k == "dry" for k, p in fl.guards(r))]
+    dry_rets = [r for r in returns(tkc) if ("dry", True) in fl.guards(r)]
     ctx.check(len(dry_rets) == 1 and tkc.text(tkc.nodes[dry_rets[0]]["val"]).split("(")[-1].rstrip(")") in ("true", "1"),
               "dry-branch-reports-one-kill", "return_table", tkc.loc(dry_rets[0]) if dry_rets else tkc.loc(),
               "the dry branch returns a positive count (same control flow as a successful wet kill)",
